@@ -19,6 +19,7 @@ type Profile struct {
 	StdPct           int  // % chance that a named-type draw picks a std package
 	Conflict         bool // bias dependency paths towards colliding names
 	AdvNames         bool // adversarial parameter name pools
+	AdvNamesPct      int  // % of worlds that use the adversarial pools although AdvNames is off
 	MaxIfaces        int
 	MaxMethods       int
 	MaxParams        int
@@ -376,7 +377,7 @@ func (g *G) genDepDecls(p *Pkg) {
 	i1.Src = fmt.Sprintf("type %s interface {\n\t%s(x int) error\n}", i1.Name, m1)
 	extra := g.Int(0, 6)
 	for k := 0; k < extra; k++ {
-		shape := g.Int(0, 18)
+		shape := g.Int(0, 19)
 		if g.Chance(g.P.MultiRefPct) {
 			shape = 14
 		}
@@ -417,6 +418,10 @@ func (g *G) genDepDecls(p *Pkg) {
 				d.Src = fmt.Sprintf("type %s interface {\n\t%s() (x chan struct {\n\t\tA %s\n\t\tB %s\n\t}, y [2]%s)\n}", d.Name, ma, parts[0], parts[1], parts[len(parts)-1])
 			}
 			g.label("dep:multi-ref-iface")
+		case 19: // generic alias (go 1.24): the alias object keeps its own type arguments
+			d := add(&Decl{Name: fresh(), Alias: true, NTParams: 1, TPCmp: []bool{false}})
+			d.Src = fmt.Sprintf(g.Pick([]string{"type %s[T any] = []T", "type %s[T any] = map[string]T", "type %s[T any] = struct {\n\tV T\n}", "type %s[T any] = func(T) error"}), d.Name)
+			g.label("dep:generic-alias-type")
 		case 17, 18: // defined (non-interface) type whose underlying type mentions another package: only its NAME is printed
 			var other *Pkg
 			if len(g.deps) > 0 && g.Chance(60) {
@@ -1262,6 +1267,18 @@ func (g *G) genTParams(skipEnsure bool) ([]TParamDecl, bool) {
 			tp.ConSrc, tp.Kind, tp.Cmp = "~int | ~string", "union-inline", true
 			if g.Chance(35) {
 				tp.ConSrc, tp.Kind = "interface{ comparable; ~int | ~string }", "element-then-union"
+			} else if g.Chance(30) {
+				// unions whose first term is a composite type (the explicit self-check spells that term)
+				comp := []struct {
+					src string
+					cmp bool
+				}{{"[]byte | []string", false}, {"interface{ *int | *string }", true}, {"[4]byte | [8]byte", true}, {"chan int | chan string", true},
+					{"map[string]int | map[string]bool", false}, {"~[]byte | ~[]rune", false}, {"interface{ ~*int | ~*int64 }", true}}
+				c := comp[0]
+				if !g.P.ExecSafe {
+					c = comp[g.Int(0, len(comp)-1)]
+				}
+				tp.ConSrc, tp.Kind, tp.Cmp = c.src, "union-inline-composite", c.cmp
 			}
 		case k == 6:
 			tp.ConSrc, tp.Kind, tp.Cmp = "int | string | float64", "union-inline", true
@@ -1278,11 +1295,15 @@ func (g *G) genTParams(skipEnsure bool) ([]TParamDecl, bool) {
 				a := named[g.Int(0, len(named)-1)]
 				term := func(nc namedCand) *Ty {
 					t := &Ty{K: KNamed, Name: nc.d.Name, Pkg: nc.p, Cmp: true}
-					switch g.Int(0, 3) {
+					switch g.Int(0, 7) {
 					case 0: // ~[]pkg.T
 						return &Ty{K: KBasic, Name: "~[]" + "\x00", Elem: t}
 					case 1: // ~map[string]pkg.T
 						return &Ty{K: KBasic, Name: "~map[string]" + "\x00", Elem: t}
+					case 2: // named KEY type, basic element
+						return &Ty{K: KBasic, Name: "~map[\x00]string", Elem: t}
+					case 3:
+						return &Ty{K: KBasic, Name: g.Pick([]string{"~[2]\x00", "~chan \x00", "[]*\x00", "map[\x00]bool", "~func(\x00) int"}), Elem: t}
 					}
 					return t
 				}
@@ -1323,6 +1344,24 @@ func (g *G) genTParams(skipEnsure bool) ([]TParamDecl, bool) {
 			// mixed constraint
 			if hardKind() {
 				tp.ConSrc, tp.Kind, tp.Cmp = "interface{ ~int; String() string }", "mixed", true
+				switch g.Int(0, 3) {
+				case 0: // comparable plus methods: not a method set, yet it has methods
+					tp.ConSrc, tp.Kind = g.Pick([]string{"interface{ comparable; String() string }", "interface{ comparable; error }", "interface{ String() string; comparable }"}), "mixed-comparable"
+				case 1: // a named type-set constraint plus a method
+					var cs []namedCand
+					for _, p := range append(append([]*Pkg{}, g.deps...), g.src) {
+						for _, d := range p.Decls {
+							if d.Constr && d.Exported {
+								cs = append(cs, namedCand{p, d})
+							}
+						}
+					}
+					if len(cs) > 0 {
+						nc := cs[g.Int(0, len(cs)-1)]
+						tp.Terms = []*Ty{{K: KBasic, Name: "interface{ \x00; String() string }", Elem: &Ty{K: KNamed, Name: nc.d.Name, Pkg: nc.p, Cmp: true}}}
+						tp.ConSrc, tp.Kind = "", "mixed-named-typeset"
+					}
+				}
 			} else {
 				tp.ConSrc, tp.Kind = "any", "any"
 			}
@@ -1361,7 +1400,7 @@ func (g *G) genTParams(skipEnsure bool) ([]TParamDecl, bool) {
 		}
 		g.label("constraint:" + tp.Kind)
 		switch tp.Kind {
-		case "any", "comparable", "union-inline", "union-named", "element-then-union", "method-iface":
+		case "any", "comparable", "union-inline", "union-inline-composite", "union-named", "element-then-union", "method-iface":
 			prevBlank := len(tps) > 0 && tps[len(tps)-1].Name == "_"
 			if n >= 2 && (g.Chance(8) || (prevBlank && g.Chance(60))) {
 				tp.Name = "_" // blank type parameter: never referenced, the mock must still name it
@@ -1487,6 +1526,12 @@ func (g *G) genIface(cfgSkipEnsure bool) *Iface {
 				g.label("iface:embeds-foreign")
 			}
 		}
+	}
+	if !it.AllMeths["Error"] && g.Chance(2+g.P.EmbedPct/5) {
+		// the predeclared error interface: its method belongs to no package
+		it.Embeds = append(it.Embeds, basic("error", true))
+		it.AllMeths["Error"] = true
+		g.label("iface:embeds-error")
 	}
 	nm := g.Int(0, g.P.MaxMethods)
 	if nm == 0 && len(it.Embeds) == 0 && g.Chance(70) {
@@ -1831,6 +1876,10 @@ func (g *G) Case() *core.Case {
 	g.gopath = g.P.ModPath == "" && g.Chance(g.P.GopathPct)
 	if g.gopath {
 		g.label("layout:gopath-vendor")
+	}
+	if !g.P.AdvNames && g.Chance(g.P.AdvNamesPct) {
+		g.P.AdvNames = true
+		g.label("names:adversarial-pools")
 	}
 	cfg := core.Config{}
 	cfg.Stub = g.Chance(40)
